@@ -289,7 +289,10 @@ Print Assumptions C01_mutation_undeclared_def.
 (* Whether a Def-expand group equals the expansion of its definition (up to sibling order, also when the substituted
    value reorders the placeholder tag against a similarly spelled sibling) is decided by the definition layer (C09) and
    enters as the fact [tf_def_contents]; at C01 level it is covered by the conforming generator
-   (rule v_defexpand_placeholder_sibling) -- tested, not proved here. *)
+   (rule v_defexpand_placeholder_sibling) -- tested, not proved here.  The same holds for the LOOKUP of a declared
+   definition by name ([tf_def_known] and the HED_DEF_UNMATCHED verdicts are facts): names with non-ASCII letters, incl.
+   letters whose lower() differs from casefold(), referenced exactly as declared, through both entry points
+   (DefinitionDict / definition strings), are generated as conforming cases (rules v_def_name_special, v_def_name_plain) -- tested only. *)
 Theorem C01_mutation_altered_def_expand : forall cfg s f g gch t ld k,
   phase2_clean cfg s f -> phase3_total cfg f ->
   In g (f :: sub_groups f) -> In (FGroup gch) g -> In t (tags_of gch) ->
